@@ -9,7 +9,7 @@
 //verif:noop (*google.golang.org/grpc/internal/grpclog.PrefixLogger).V
 //verif:noop (*google.golang.org/grpc/internal/grpclog.PrefixLogger).Infof
 //verif:noreplay virtual clock: witnesses are re-executed deterministically in the engine
-//verif:outside what Close does to the connection (stubbed: the close time is recorded and the transport's done signal raised); the peer is a goroutine that records a received byte (lastRead) at up to 2 symbolic moments; Time and Timeout symbolic in [1 ms, 10 s]; max connection idle / age are set out of reach (1000 h); the ping frames themselves (queued in the control buffer, not written)
+//verif:outside what Close does to the connection (stubbed: the close time is recorded and the transport's done signal raised); the peer is a goroutine that records a received byte (lastRead) at up to 2 moments; Time in {1 s, 3 s}, Timeout in {1 s, 5 s}, gaps in {0.5 s, 2 s, 4 s, 7 s} (concrete menus, every combination); max connection idle / age are set out of reach (1000 h); the ping frames themselves (queued in the control buffer, not written)
 package transport
 
 import (
@@ -41,10 +41,20 @@ func verifStubKAClientClose(t *http2Client, err error) {
 	t.cancel()
 }
 
+// durations come from small menus (symbolic durations make every timer comparison a solver query; the timer loops are
+// decided on these values, the arithmetic on arbitrary values is not claimed)
+var verifKATimes = [...]time.Duration{time.Second, 3 * time.Second}
+var verifKATimeouts = [...]time.Duration{time.Second, 5 * time.Second} // at most Time, and longer than Time
+var verifKAGaps = [...]time.Duration{500 * time.Millisecond, 2 * time.Second, 4 * time.Second, 7 * time.Second}
+
 func verifDur(name string, lo, hi time.Duration) time.Duration {
-	d := time.Duration(verifInt64(name))
-	verifAssume(d >= lo && d <= hi)
-	return d
+	switch name {
+	case "Time":
+		return verifKATimes[verifChoice(name, len(verifKATimes))]
+	case "Timeout":
+		return verifKATimeouts[verifChoice(name, len(verifKATimeouts))]
+	}
+	return verifKAGaps[verifChoice(name, len(verifKAGaps))]
 }
 
 // the peer: bytes arrive at up to two moments, then silence
@@ -52,6 +62,9 @@ func verifPeer(lastRead *int64, reads int, lastAt *int64) {
 	for i := 0; i < reads; i++ {
 		gap := verifDur("gap-before-received-byte", 0, 15*time.Second)
 		<-time.After(gap)
+		if len(verifKACloseTimes) > 0 {
+			return // the connection is gone: nothing is received any more
+		}
 		now := time.Now().UnixNano()
 		atomic.StoreInt64(lastRead, now)
 		*lastAt = verifNow()
@@ -134,7 +147,10 @@ func verifH_C15_client_loop() {
 		if applicableAt > base {
 			base = applicableAt
 		}
-		verifAssert(c <= base+int64(TO), "closed no later than Timeout after the later of (last received byte + Time) and the moment keepalive became applicable")
+		// known finding F16: a byte received while keepalive was dormant is noticed only one tick after the wake-up ping and
+		// restarts the ping cycle, so the close comes up to min(Time, Timeout) later than the bound
+		verifAssertKF(c <= base+int64(TO), "closed no later than Timeout after the later of (last received byte + Time) and the moment keepalive became applicable",
+			"F16-keepalive-dormant-read-delays-close", opensLater && lastAt > start && lastAt <= applicableAt && c <= base+2*int64(TO))
 		verifAssert(c >= lastAt+int64(T), "not closed while a byte was received within the last Time")
 		verifAssert(c >= applicableAt, "not closed by keepalive before keepalive applies (no stream and PermitWithoutStream unset)")
 		if opensLater {
